@@ -13,7 +13,7 @@ THEOREMS = ["Econf.C14_split_join", "Econf.C14_split_total", "Econf.C14_ext_comm
 SHRINK = False
 RULE = ("every field kind (key, value, continuation line, section, comment before, comment after, file name, directory name, option "
         "string, econftool --delimiters) x lengths {1, BUFSIZ-2..BUFSIZ+2, 2*BUFSIZ, 64Ki, 1Mi (thorough)} and {NAME_MAX-1, NAME_MAX}, "
-        "{PATH_MAX-2..PATH_MAX+2} for names and paths x every API that copies the field (string and extended getter, merge, write, "
+        "{PATH_MAX-2..PATH_MAX+2} for names and paths (read), NAME_MAX-6..NAME_MAX and PATH_MAX-8..PATH_MAX-1 (written and read back) x every API that copies the field (string and extended getter, merge, write, "
         "re-read, error location); lengths and FNV hashes of what comes back are compared with what went in; distinct by (field, length)")
 BUFSIZ = 8192
 NAME_MAX = 255
@@ -105,6 +105,27 @@ def name_scenario(sid, kind, n):
         s.add("RF", 0, h(p), h(b"="), h(b"#"))
         s.add("ERRLOC")
         s.meta["path"] = p
+    elif kind in ("wfilename", "wpath"):
+        # the writer: a file name of n bytes / a directory + name of n bytes in total, written and read back
+        if kind == "wfilename":
+            d, name = b"/o", b"w" * n
+        else:
+            name = b"w.conf"
+            comps = []
+            rest = n - len(name) - 1
+            while rest > 201:
+                comps.append(b"c" * 200)
+                rest -= 201
+            if rest > 1:
+                comps.append(b"e" * (rest - 1))
+            d = b"/" + b"/".join(comps)
+        s.mkdir(d)
+        s.add("NEW", 0, "ini")
+        s.add("SET", 0, "str", h(b"S"), h(b"k"), h(b"kept"))
+        s.add("WSUM", 0, h(d), h(name))
+        s.add("RF", 1, h(d + b"/" + name), h(b"="), h(b"#"))
+        s.add("GET", 1, "str", h(b"S"), h(b"k"))
+        s.meta["path"] = d + b"/" + name
     elif kind == "options":
         d = b"/" + b"x" * n
         s.add("NEW", 0, "opt", h(b"ROOT_PREFIX=" + d + b";PARSING_DIRS=" + d + b":/b;CONFIG_DIRS=" + b"y" * n))
@@ -128,6 +149,10 @@ def scenarios(tier, rng):
         out.append(name_scenario("dn_%d" % n, "dirname", n))
     for n in range(PATH_MAX - 3, PATH_MAX + 3):
         out.append(name_scenario("p_%d" % n, "path", n))
+    for n in range(NAME_MAX - 6, NAME_MAX + 1):
+        out.append(name_scenario("wfn_%d" % n, "wfilename", n))
+    for n in range(PATH_MAX - 8, PATH_MAX):
+        out.append(name_scenario("wp_%d" % n, "wpath", n))
     for n in (100, BUFSIZ, 65536):
         out.append(name_scenario("o_%d" % n, "options", n))
     return out
@@ -181,6 +206,11 @@ def oracle(s, lines):
             return "%s of %d bytes: %r" % (f, n, lines[0])
         if lines[1] != "path " + h(m["path"]):
             return "%s of %d bytes: path %r" % (f, n, lines[1][:80])
+        return None
+    if f in ("wfilename", "wpath"):
+        if "w E0" not in lines or lines[-2:] != ["rf E0 obj", "get E0 " + h(b"kept")]:
+            return "econf_writeFile to a %s of %d bytes (which the operating system accepts): %r" % (
+                "file name" if f == "wfilename" else "path", n, [l[:40] for l in lines[2:]])
         return None
     if f == "path":
         if n >= PATH_MAX:
